@@ -26,6 +26,11 @@ def gen_tables() -> str:
     truthy115 = sorted((op, n, bool(v)) for (op, n), v in m115.IS_INT_COMPARISON_TRUTHY.items())
     m123 = module_of(123)
     mapping123 = sorted((k, v[0], sorted(getattr(t, "__name__", str(t)) for t in v[1:])) for k, v in m123.FUNC_NAME_MAPPING.items())
+    lit112 = sorted(module_of(112).FUNC_NAMES.items())
+    conv116 = sorted(module_of(116).FUNC_CONVERSIONS.items())
+    conv119 = sorted(module_of(119).CONVERSIONS.items())
+    remove188 = sorted(module_of(188).STR_FUNC_TO_REMOVE_FUNC.items())
+    pairs = lambda rows: llist(["(%s, %s)" % (lstr(a), lstr(b)) for a, b in rows])  # noqa: E731
     return (
         HEADER
         + "namespace RefurbVerif.Generated\n\n"
@@ -39,5 +44,13 @@ def gen_tables() -> str:
         + "def furb115Truthy : List (String × Int × Bool) := %s\n\n" % llist(["(%s, %d, %s)" % (lstr(a), n, lbool(c)) for a, n, c in truthy115])
         + "/-- FURB123 FUNC_NAME_MAPPING: constructor ↦ (suffix appended to the operand, operand classes for which the call is redundant) -/\n"
         + "def furb123Mapping : List (String × String × List String) := %s\n" % llist(["(%s, %s, %s)" % (lstr(a), lstr(b), llist([lstr(x) for x in c])) for a, b, c in mapping123])
+        + "\n/-- FURB112 FUNC_NAMES: constructor ↦ the literal proposed for the call without arguments -/\n"
+        + "def furb112Literals : List (String × String) := %s\n\n" % pairs(lit112)
+        + "/-- FURB116 FUNC_CONVERSIONS: `bin`/`oct`/`hex` ↦ the format code proposed for `f(x)[2:]` -/\n"
+        + "def furb116Conversions : List (String × String) := %s\n\n" % pairs(conv116)
+        + "/-- FURB119 CONVERSIONS: function ↦ what is appended to the operand inside the f-string braces -/\n"
+        + "def furb119Conversions : List (String × String) := %s\n\n" % pairs(conv119)
+        + "/-- FURB188 STR_FUNC_TO_REMOVE_FUNC: the test method ↦ the method proposed -/\n"
+        + "def furb188RemoveFunc : List (String × String) := %s\n" % pairs(remove188)
         + "\nend RefurbVerif.Generated\n"
     )
